@@ -377,10 +377,10 @@ def matrix_pairs(ops, base, stride, offset):
 def generate_for(prop, rng, tier):
     cases, ops, base = matrix_cases()
     if tier == "quick":
-        cases += matrix_pairs(ops, base, 60, rng.randrange(60))
+        cases += matrix_pairs(ops, base, 140, rng.randrange(140))
     else:
         cases += matrix_pairs(ops, base, 4, rng.randrange(4))
-    n = 220 if tier == "quick" else 5000
+    n = 150 if tier == "quick" else 5000
     for _ in range(n):
         c = rcase(rng, prop, 7 if tier == "quick" else 16)
         c["kind"] = "random"
@@ -648,6 +648,16 @@ def cu(v):
     return canon(v)
 
 
+def _eqv(a, b):
+    import json
+    return json.dumps(canon(a), default=str) == json.dumps(canon(b), default=str)
+
+
+def diff_snap(prev, snap):
+    """ConfigFields.diff_snap: only the top-level slots whose observed value changed, with all marks"""
+    return ({k: v for k, v in snap[0].items() if not (k in prev[0] and _eqv(prev[0][k], v))}, snap[1], snap[2])
+
+
 def split_path(fields, path):
     """(reference path of the declared leaf / node the error path lies in, that node) -- the implementation's typed
     dict leaves append "[key]" to their own path (DictProxy._ref_path); the model reports the leaf's path"""
@@ -748,7 +758,7 @@ def impl(c):
         if c.get("prop") == "C01":
             revalidate(b, root, c["fields"], reval)
         trace.append({"ps": ps, "op": o, "out": out, "raw": raw, "before": prev, "after": snap, "same": same, "tpath": tpath})
-        steps.append((out, snap, same))
+        steps.append((out, diff_snap(prev, snap), same))
         before_ids = ids
         prev = snap
     c["_obs"] = ("ok", first, steps)
